@@ -210,6 +210,7 @@ func calleeInProxy(c *Ctx, call ssa.CallInstruction) *ssa.Function {
 func c08(c *Ctx) (*report.Result, error) {
 	res := newResult("C08")
 	res.RuleDoc["O8.1"] = "cleanup removes only its own entry: every call made by a stream incarnation's cleanup (deferred calls and post-run statements of the four Run functions and of ensureStream's goroutine) that reaches a delete on a per-shard registry reaches only deletes guarded by a comparison of the stored entry with the incarnation's own identity, inside the critical section of the lookup"
+	res.RuleDoc["O8.6"] = "registration bookkeeping cannot wedge itself: inside a critical section of any mutex of the shard manager, the intra-proxy manager or the stream structs no call acquires the same (non-reentrant) mutex again, and these mutexes nest in one order"
 	res.RuleDoc["O8.5"] = "identity tokens are fresh per registration: the time RegisterShard hands back is time.Now() of that very call and is what the stored entry carries, on every path (two incarnations can never share a token)"
 	res.RuleDoc["O8.2"] = "sends on a closable channel are recover-guarded: every send on a chan RoutedMessage (the only registered channel type its owner closes) lies in a function with a deferred recover()"
 	res.RuleDoc["O8.3"] = "successor evicts before it registers: the receiver terminates its predecessor before registering its own channel/cancel/receiver; the sender registers its delivery channel before announcing ownership"
@@ -372,6 +373,15 @@ func c08(c *Ctx) (*report.Result, error) {
 
 	res.Explanation = "Who-may-delete analysis over every delete on the per-shard routing registries of package proxy (localShards, remoteSendChannels, localAckChannels, localReceiverCancelFuncs, activeReceivers, peerState.senders/receivers/recvShutdown): each delete is classified as identity-guarded (stored entry compared with a caller-supplied token, lookup + comparison + delete inside one critical section - P-CS + P-DOM) or unconditional; every call made by a stream incarnation's own cleanup must reach guarded deletes only (evictions by a successor or by the manager are an enumerated, separate class). Every send on the one registered channel type that its owner closes must be covered by a deferred recover. Registration order and registration/cleanup pairing are checked by dominance. Decides that no cleanup can remove a successor's entry and no send can crash the process; does not decide quiescent emptiness of the registries under all interleavings."
 	res.Assumptions = []string{"a send on a closed channel panics (also inside select)", "channel, pointer and time.Time identity distinguish incarnations"}
+	if sp, err := c.Prog.SSAPkg("proxy"); err == nil {
+		n := checkReentrancy(c, res, "O8.6", []*ssa.Package{sp}, func(key string) bool {
+			return !strings.HasPrefix(key, "ReplicationStreamObserver.") && !strings.HasPrefix(key, "StreamTracker.")
+		})
+		res.Analysed["reentrancy_sections"] = n
+		if n < 20 {
+			res.Undec("O8.6", "critical sections of package proxy", "", fmt.Sprintf("%d sections found", n))
+		}
+	}
 	return res, nil
 }
 
